@@ -112,9 +112,23 @@ def build_program(name, config, units, extra_flags=(), libs=()):
     if os.path.exists(exe):
         return exe
     os.makedirs(BUILD, exist_ok=True)
+    # one builder at a time per program/config/repository (checks may run concurrently)
+    import fcntl
+    lock = open(os.path.join(BUILD, prefix + "lock"), "w")
+    fcntl.flock(lock, fcntl.LOCK_EX)
+    try:
+        return _build_locked(exe, prefix, config, units, extra_flags, libs, cc, flags)
+    finally:
+        fcntl.flock(lock, fcntl.LOCK_UN)
+        lock.close()
+
+
+def _build_locked(exe, prefix, config, units, extra_flags, libs, cc, flags):
+    if os.path.exists(exe):
+        return exe
     # drop stale builds of the same program/config (for the same repository path)
     for f in os.listdir(BUILD):
-        if f.startswith(prefix):
+        if f.startswith(prefix) and not f.endswith("lock"):
             p = os.path.join(BUILD, f)
             shutil.rmtree(p) if os.path.isdir(p) else os.remove(p)
     objdir = exe + ".obj"
